@@ -854,6 +854,98 @@ func (e *lvEnv) randomStep(r *rand.Rand) lvStep {
 }
 
 // ---------------------------------------------------------------------------
+// histories with many tokens in circulation at once (specs/LiquidVestingMany.tla): issue, then drain
+
+// lvManyCfg: a random configuration whose first account stays locked long enough to issue many tokens
+func lvManyCfg(r *rand.Rand, seed int64) *lvCfg {
+	cfg := lvRandomCfg(r, seed)
+	a1 := cfg.Accts["a1"]
+	a1.Start = -int64(r.Intn(20))
+	n := 2 + r.Intn(4)
+	a1.Lockup = make([]lvPeriod, 0, n)
+	for i := 0; i < n; i++ {
+		amt := new(big.Int).Add(lvRandBig(r, new(big.Int).Mul(lvE18, big.NewInt(3_000_000))), new(big.Int).Mul(lvE18, big.NewInt(100_000)))
+		a1.Lockup = append(a1.Lockup, lvP(int64(50_000+r.Intn(100_000)), amt.String()))
+	}
+	cfg.Accts["a1"] = a1
+	return cfg
+}
+
+func (e *lvEnv) lvLive() []string {
+	counter := e.App.LiquidVestingKeeper.GetDenomCounter(e.Ctx)
+	live := []string{}
+	for id := uint64(0); id < counter; id++ {
+		base := lvtypes.DenomBaseNameFromID(id)
+		if e.App.BankKeeper.GetSupply(e.Ctx, base).Amount.IsPositive() {
+			live = append(live, base)
+		}
+	}
+	return live
+}
+
+func (e *lvEnv) lvHeld(n, denom string) sdkmath.Int {
+	b := e.App.BankKeeper.GetBalance(e.Ctx, e.keys[n].Addr, denom).Amount
+	if contract, hasPair := e.erc20Of(denom); hasPair {
+		b = b.Add(e.erc20Bal(contract, e.keys[n].Addr))
+	}
+	return b
+}
+
+// lvManyScenario issues `tokens` liquid tokens (a few seconds apart, to varying holders), then redeems
+// every token completely, in a random order, each holder everything it has; one step in four in
+// between is an arbitrary random step (transfer, partial redeem, another liquidation, a restart)
+func (e *lvEnv) lvManyScenario(r *rand.Rand, tokens int, emit func(lvStep)) {
+	pick := func() string { return e.names[r.Intn(len(e.names))] }
+	for tries := 0; tries < 2*tokens && int(e.App.LiquidVestingKeeper.GetDenomCounter(e.Ctx)) < tokens; tries++ {
+		t := e.now() + int64(r.Intn(4))
+		left := int64(tokens) - int64(e.App.LiquidVestingKeeper.GetDenomCounter(e.Ctx))
+		from := "a1"
+		va, ok := e.App.AccountKeeper.GetAccount(e.Ctx, e.keys[from].Addr).(*vestingtypes.ClawbackVestingAccount)
+		amt := sdkmath.OneInt()
+		if ok {
+			locked := lvLockedUp(va, lvTime(t))
+			minLiq := lvAmt(e.cfg.MinLiq)
+			room := locked.QuoRaw(left + 1).Sub(minLiq)
+			amt = minLiq
+			if room.IsPositive() {
+				amt = minLiq.Add(sdkmath.NewIntFromBigInt(lvRandBig(r, room.BigInt())))
+			}
+			if r.Intn(5) == 0 {
+				amt = minLiq.AddRaw(int64(r.Intn(7)))
+			}
+		}
+		to := from
+		if r.Intn(3) != 0 {
+			to = pick()
+		}
+		emit(lvStep{"liquidate", M{"from": from, "to": to, "amt": amt.String(), "t": t}})
+	}
+	for rounds := 0; rounds < 3; rounds++ {
+		live := e.lvLive()
+		if len(live) == 0 {
+			break
+		}
+		r.Shuffle(len(live), func(i, j int) { live[i], live[j] = live[j], live[i] })
+		for _, denom := range live {
+			if r.Intn(4) == 0 {
+				emit(e.randomStep(r))
+			}
+			for _, n := range e.names {
+				have := e.lvHeld(n, denom)
+				if !have.IsPositive() {
+					continue
+				}
+				to := pick()
+				if r.Intn(3) == 0 {
+					to = n
+				}
+				emit(lvStep{"redeem", M{"from": n, "to": to, "denom": denom, "amt": have.String(), "t": e.now() + int64(r.Intn(3))}})
+			}
+		}
+	}
+}
+
+// ---------------------------------------------------------------------------
 
 var lvPtrRe = regexp.MustCompile(`\{\d{6,}\}`)
 
@@ -864,6 +956,8 @@ func lvMain(args []string) error {
 	pureRandom := fs.Int("pure-random", 0, "pure: number of seeded random large inputs")
 	random := fs.Int("random", 0, "history: number of random scenarios")
 	steps := fs.Int("steps", 10, "history: steps per random scenario")
+	many := fs.Int("many", 0, "history: number of random scenarios with many tokens (issue, then drain)")
+	tokens := fs.Int("tokens", 12, "history: least number of tokens issued in a --many scenario")
 	seed := fs.Int64("seed", 1, "seed")
 	out := fs.String("out", "trace.ndjson", "trace output")
 	fs.Parse(args)
@@ -937,6 +1031,15 @@ func lvMain(args []string) error {
 		for j := 0; j < *steps; j++ {
 			emitStep(e, e.randomStep(r))
 		}
+	}
+	for i := 0; i < *many; i++ {
+		s := *seed*1000033 + 500000 + int64(i)
+		r := rand.New(rand.NewSource(s))
+		cfg := lvManyCfg(r, s)
+		e := newLvEnv(cfg)
+		scn++
+		tw.Emit(M{"ev": "reset", "scn": scn, "src": "random-many", "mode": "history", "cfg": cfg, "post": e.project()})
+		e.lvManyScenario(r, *tokens+r.Intn(*tokens), func(st lvStep) { emitStep(e, st) })
 	}
 	fmt.Printf("liquidvesting: scenarios=%d lines=%d\n", scn, tw.N)
 	return nil
